@@ -132,6 +132,7 @@ var reservedNames = map[string]any{
 	"operator":                 nil,
 	"or":                       nil,
 	"or_eq":                    nil,
+	"other":                    nil, // the parameter of the generated comparison operators
 	"override":                 nil,
 	"pragma":                   nil,
 	"private":                  nil,
@@ -395,8 +396,15 @@ func ComputedFieldIdentifierName(name string) string {
 	return fmt.Sprintf("%s_field", pascalCased)
 }
 
+// Names that the generated code declares itself in the namespace of the model's types.
+var reservedTypeNames = map[string]any{
+	"Version": nil, // the enum of schema versions in protocols.h
+}
+
 func TypeIdentifierName(name string) string {
-	if _, reserved := reservedNames[name]; !reserved {
+	_, reserved := reservedNames[name]
+	_, declared := reservedTypeNames[name]
+	if !reserved && !declared {
 		return name
 	}
 
